@@ -50,9 +50,11 @@ class DiscStorage:
             file = self._lookup_path(external(name)._path)
         except HashError:
             return
-        if file.stem.endswith("-new"):
-            stem = file.stem[:-4]
-            file.rename(file.with_name(stem + file.suffix))
+        # "<hash>-new<suffix>" -> "<hash><suffix>"
+        # (pathlib finds no suffix in "<hash>-new." which is the name for suffix=".")
+        hash, new, suffix = file.name.partition("-new.")
+        if new:
+            file.rename(file.with_name(hash + "." + suffix))
 
     def _lookup_path(self, name) -> pathlib.Path:
         files = list(self.directory.glob(name))
